@@ -121,10 +121,15 @@ def translate(sources: dict | None = None, pins: dict | None = None):
     exp_order = ["context", "self._check_pending_job(job) is not None", "job.was_cached", "not self._dryrun",
                  "job.recording_provenance()", "not executor", "job.task.is_async() and (not executor.supports_async())",
                  "self._dryrun", "not job.task.script"]
+    order = [t for t in order if t != "job.get_option('cache_scope', CacheScope.BACKEND, as_type=CacheScope) != CacheScope.NONE"]
     if order != exp_order:
         fail(f"_exec_job_main_thread: order of decisions changed: {order}", ex)
     reg_overwrite = any(src(s) == "self._pending_jobs[job.eval_hash, job.context_hash] = job" for s in ex.body)
-    reg_absent = any(src(s) == "self._pending_jobs.setdefault((job.eval_hash, job.context_hash), job)" for s in ex.body)
+    reg_absent = any(
+        isinstance(s, ast.If) and not s.orelse
+        and src(s.test) == "job.get_option('cache_scope', CacheScope.BACKEND, as_type=CacheScope) != CacheScope.NONE"
+        and [src(b) for b in s.body] == ["self._pending_jobs[job.eval_hash, job.context_hash] = job"]
+        for s in ex.body)
     if reg_overwrite == reg_absent:
         fail("_exec_job_main_thread: registration in _pending_jobs not recognised", ex)
 
